@@ -29,6 +29,34 @@ def ok_blocks(b):
             if st["d"]["l"] == 0 and not st["d"]["p"] and util.is_ok_agg(st["rv"])]
 
 
+def err_arm_leaves(b, call_block, ok_blocks_):
+    """the explicit form of `?`: the call's Result is matched and no Ok return is reachable from its Err arm"""
+    t = b.blocks[call_block]["t"]
+    dst = t.get("dst")
+    if not dst:
+        return False
+    found = False
+    for sb, sw in b.switches():
+        src = b.bool_operand_source(sw["op"])
+        if not (src and src["kind"] == "discr"):
+            continue
+        o = src["origin"]
+        root = o[0]
+        d = b.single_def(root)
+        # directly the call's result, or the ControlFlow of Try::branch(result)
+        if root != dst["l"] and not (d and d[1] == "t" and (norm_fn(d[2].get("fn")) or "").endswith("Try::branch") and (b.operand_origin(d[2]["args"][0]) or (None,))[0] == dst["l"]):
+            continue
+        vs = src.get("vars") or {}
+        err_edges = [(sb, tb) for v, tb in sw["targets"] if vs.get(v) in ("Err", "Break")]
+        if not err_edges and any(x in vs.values() for x in ("Err", "Break")):
+            err_edges = [(sb, sw["otherwise"])]
+        for (_, tb) in err_edges:
+            found = True
+            if ok_blocks_ & b.reachable(start=tb):
+                return False
+    return found
+
+
 def run(ctx):
     ctx.level = "proof"
     ctx.decides = ("Document::reconstruct returns Ok only after OpSet::load, ChangeGraphCols::load, the change collector's three passes and verify_changes, each of whose errors leaves the function; "
@@ -49,7 +77,7 @@ def run(ctx):
     for step in STEPS:
         sites = [bi for bi, t in b.calls() if (norm_fn(callee(t)) or "").endswith(step)]
         dom = bool(sites) and all(any(b.block_dominates(s, o) for s in sites) for o, _ in oks)
-        leaves = bool(sites) and all(s in exits for s in sites)
+        leaves = bool(sites) and all((s in exits) or err_arm_leaves(b, s, {o for o, _ in oks}) for s in sites)
         ctx.ob("L1", "reconstruct|%s before Ok" % step.split("::")[-1].strip(":"), dom and leaves, b.rec["sp"],
                "dominates every Ok; its error leaves the function" if dom and leaves else
                "a document can be returned without %s having run and passed (dominates Ok: %s, error propagated: %s)" % (step.split("::")[-1], dom, leaves))
